@@ -1,15 +1,15 @@
 (* Property C03 - Validation accepts exactly the geometries that satisfy the OGC validity rules.
    Statements only; proofs are in Proofs/Validate_kernel.v (segment kernel), Validate_graph.v
    (touch graph), Validate_proofs.v (line strings, rings), Validate_translate.v, Validate_repr.v,
-   Validate_sound.v.
+   Validate_sound.v, Validate_mperm.v (MultiPolygon: order of the members).
    Model: Model/Validate.v (transcription of the Go validation code over exact arithmetic; the
    fixed nested-ring probe is [validate], the probe of the pinned tree is [validate_v0]);
    reference statement: Model/ValidateSpec.v (ogc_valid). *)
-From Coq Require Import QArith List Bool ZArith.
+From Coq Require Import QArith List Bool ZArith Permutation.
 From SF Require Import Base.QKernel Model.Validate Model.ValidateSpec
   Proofs.Validate_kernel Proofs.Validate_graph Proofs.Validate_proofs Proofs.Validate_translate
   Proofs.Validate_repr Proofs.Validate_sound
-  Base.GeomAST Base.Planar Base.Planar_C03 Proofs.Planar_slab_base Proofs.Validate_ogc Proofs.Validate_jordan Proofs.Validate_sound_all Proofs.Validate_total Proofs.Validate_idx Proofs.Validate_mpoly.
+  Base.GeomAST Base.Planar Base.Planar_C03 Proofs.Planar_slab_base Proofs.Validate_ogc Proofs.Validate_jordan Proofs.Validate_sound_all Proofs.Validate_total Proofs.Validate_idx Proofs.Validate_mpoly Proofs.Validate_mperm.
 Import ListNotations.
 Open Scope Q_scope.
 
@@ -426,3 +426,40 @@ Example multipolygon_fast_case_nonvacuous :
   boundary_inter (poly_lines [A]) (poly_lines [B]) = (false, false) /\ mpoly_pair [A] [B] = None
   /\ mpoly_pair [A] [[(1, 1); (2, 1); (2, 2); (1, 1)]] = Some RPolysMultiTouch.
 Proof. vm_compute. auto. Qed.
+
+(* ---------------------------------------------------------------- MultiPolygon: the order of the members *)
+(* The verdict of MultiPolygon.Validate (nil / error; the rule reported may differ) is the same for
+   every order in which the members are listed - for the fixed and for the pinned nested-ring probe.
+   Proof: every member is validated on its own; checkMultiPolygonConstraints then runs ONE callback
+   per unordered pair of non-empty members, and that callback is symmetric (mpoly_pair_symmetric):
+   the kind of the boundary intersection (some point part / some line part) is a property of the
+   point sets (intersect_line_is_intersection), the fast case probes one start vertex in each
+   direction, the slow case runs validatePolyNotInsidePoly in BOTH directions.
+   A callback that probes in one direction only, the direction chosen by list position or by a
+   comparison that can tie ("the member with the smaller envelope area"), breaks
+   mpoly_pair_symmetric: with members of identical envelopes, one inscribed in the other,
+   MULTIPOLYGON(((2 0,4 2,2 4,0 2,2 0)),((0 0,4 0,4 4,0 4,0 0))) would be accepted and the opposite
+   order rejected.  On the implementation the same statement is the SPEC check repr_invariant of the
+   correspondence class inscribed (every member order of every configuration). *)
+Theorem mpoly_pair_symmetric : forall pi pj : list (list pt),
+  mpoly_pair pi pj = None <-> mpoly_pair pj pi = None.
+Proof. exact mpoly_pair_sym. Qed.
+Print Assumptions mpoly_pair_symmetric.
+Theorem multipolygon_validate_perm_invariant : forall ps ps' : list (list (list oxy)),
+  Permutation ps ps' ->
+  is_valid (VMPoly ps) = is_valid (VMPoly ps') /\ is_valid_v0 (VMPoly ps) = is_valid_v0 (VMPoly ps').
+Proof. exact multipolygon_validate_perm_invariant_lemma. Qed.
+Print Assumptions multipolygon_validate_perm_invariant.
+Example multipolygon_perm_nonvacuous :
+  let diamond := [[P 2 0; P 4 2; P 2 4; P 0 2; P 2 0]] in
+  let square := [[P 0 0; P 4 0; P 4 4; P 0 4; P 0 0]] in
+  let beside := [[P 4 2; P 6 0; P 8 2; P 6 4; P 4 2]] in
+  Permutation [diamond; square; []] [[]; square; diamond]
+  /\ is_valid (VMPoly [diamond; square]) = false /\ is_valid (VMPoly [square; diamond]) = false
+  /\ is_valid (VMPoly [[]; diamond; square]) = false
+  /\ is_valid (VMPoly [diamond; beside]) = true /\ is_valid (VMPoly [beside; []; diamond]) = true
+  /\ mpoly_pair [[(2, 0); (4, 2); (2, 4); (0, 2); (2, 0)]] [[(0, 0); (4, 0); (4, 4); (0, 4); (0, 0)]] = Some RPolysMultiTouch
+  /\ mpoly_pair [[(0, 0); (4, 0); (4, 4); (0, 4); (0, 0)]] [[(2, 0); (4, 2); (2, 4); (0, 2); (2, 0)]] = Some RPolysMultiTouch.
+Proof.
+  split; [apply Permutation_rev with (l := [_; _; _])|]. vm_compute. repeat split; reflexivity.
+Qed.
